@@ -230,6 +230,13 @@ class DecorGen:
             bad = self.injected(scope)
             while bad[0] in ("return", "restart", "error", "if"):
                 bad = self.injected(scope)
+        if r.random() < 0.3:
+            # a statement without operand right before the directive: its `;` is the token whose trailing
+            # comments are split from the directive (never executed: the header is never set)
+            self._c("ignore:after-bare-statement")
+            bare = r.choice([["error", ";"], ["esi", ";"], ["restart", ";"], ["error", ";"]])
+            d = r.choice(["# falco-ignore-next-line", "// falco-ignore-next-line"])
+            return ["if", "(", "req.http.Never-Set", ")", "{"] + bare + [ann(d)] + bad + ["}"]
         k = r.random()
         if k < 0.45:
             self._c("ignore:next-line")
@@ -273,15 +280,19 @@ class DecorGen:
               ".ssl", "=", "false", ";", "}"]
         director = r.random() < 0.3
         if director:
-            self._c("decl:director")
-            t += ["backend", "second", "{", ".host", "=", '"127.0.0.1"', ";", ".port", "=", '"__PORT__"', ";",
-                  ".ssl", "=", "false", ";", ".connect_timeout", "=", "1s", ";", "}"]
-            kind = r.choice(["hash", "random", "client", "fallback"])
+            # the members answer on different host names, so the flows show which one a director picked
+            t += ["backend", "second", "{", ".host", "=", '"localhost"', ";", ".port", "=", '"__PORT__"', ";",
+                  ".ssl", "=", "false", ";", ".connect_timeout", "=", "1s", ";",
+                  ".probe", "=", "{", ".request", "=", '"GET / HTTP/1.1"', ";", ".interval", "=", "60s", ";", "}", "}"]
+            t += ["backend", "third", "{", ".host", "=", '"127.0.0.1"', ";", ".port", "=", '"__PORT__"', ";",
+                  ".ssl", "=", "false", ";", ".host_header", "=", '"third.example"', ";", "}"]
+            kind = r.choice(["hash", "hash", "client", "client", "fallback"])
+            self._c("decl:director-" + kind)
             t += ["director", "dir1", kind, "{"]
-            if kind in ("random",):
-                t += [".retries", "=", "3", ";"]
-            for b in ("example", "second"):
-                t += ["{", ".backend", "=", b, ";"] + ([".weight", "=", "1", ";"] if kind in ("hash", "random", "client") else []) + ["}"]
+            if kind in ("hash", "client"):
+                t += [".quorum", "=", "20%", ";"]
+            for b in ("example", "second", "third"):
+                t += ["{", ".backend", "=", b, ";"] + ([".weight", "=", "1", ";"] if kind in ("hash", "client") else []) + ["}"]
             t += ["}"]
         t += ["acl", "internal", "{", '"10.0.0.0"', "/", "8", ";", "!", '"10.1.0.0"', "/", "16", ";", '"192.168.0.1"', ";", "}"]
         t += ["table", "t1", "{", '"k"', ":", '"v"', ",", '"k2"', ":", '"v2"', ",", "}"]
@@ -306,8 +317,7 @@ class DecorGen:
                 body = self.injected(scope) + body if r.random() < 0.5 else body + self.injected(scope)
             t += body
             if scope == "recv":
-                # (a director cannot be selected in the simulator today: BACKEND = BACKEND drops it)
-                t += ["set", "req.backend", "=", "example", ";"]
+                t += ["set", "req.backend", "=", "dir1" if director and r.random() < 0.7 else "example", ";"]
                 if r.random() < 0.25:
                     self._c("stmt:restart")
                     t += ["if", "(", "req.restarts", "==", "0", "&&", "req.http.A", ")", "{", "set", "req.http.R", "=", '"1"', ";", "restart", ";", "}"]
@@ -413,6 +423,10 @@ def decorate(tokens, rng, style):
             g = " " + _line(rng)
         elif style == "newline-everywhere":
             g = "\n" * rng.choice([1, 1, 2, 3]) + " " * rng.randint(0, 6)
+        elif style == "multi-block":
+            g = " " + " ".join(rng.choice(ORDINARY) for _ in range(rng.randint(2, 5))) + " "
+        elif style == "huge":
+            g = b
         elif style == "one-line":
             g = " "
         elif style == "tabs":
@@ -441,9 +455,39 @@ def decorate(tokens, rng, style):
         if i == 0 and style in ("one-line",):
             g = ""
         gaps.append(g if g != "" or i == 0 else " ")
+    if style == "huge":
+        # COMMENT / LAYOUT SIZE: a few gaps get a very long comment (around and beyond the 4096-byte reader
+        # buffer), thousands of blank lines or a very long indentation; the comment text looks like code
+        for i in rng.sample(range(n + 1), min(n + 1, rng.randint(3, 6))):
+            size = rng.choice([4095, 4096, 4097, 4098, 8192, 10000, 20000])
+            code = 'set req.http.Evil = "1"; } sub vcl_recv { return(pass); } '
+            body = (code * (size // len(code) + 1))[:size]
+            k = rng.random()
+            if k < 0.4:
+                g = " " + rng.choice(["#", "//", "# ", "// "]) + body + "\n"
+            elif k < 0.65:
+                g = " /*" + body.replace("*/", "* /") + "*/ "
+            elif k < 0.75:
+                g = " /*\n" + "\n".join([code] * (size // len(code))) + "\n*/ "
+            elif k < 0.9:
+                g = "\n" * rng.choice([1000, 3000, 5000])
+            else:
+                g = "\n" + rng.choice([" ", "\t"]) * size
+            gaps[i] = g
     return gaps
+
+
+def variant(tokens, rng, style):
+    """source text of one decorated variant"""
+    if style == "crlf":
+        # Windows line ends everywhere, also after line comments, annotations and inside block comments
+        return render(tokens, decorate(tokens, rng, rng.choice(["mixed", "dense", "line-everywhere", "focus"]))).replace("\n", "\r\n")
+    if style == "crlf-base":
+        return render(tokens, base_gaps(tokens)).replace("\n", "\r\n")
+    return render(tokens, decorate(tokens, rng, style))
 
 
 STYLES = ["block-everywhere", "line-everywhere", "newline-everywhere", "one-line", "tabs",
           "sparse", "sparse", "sparse", "dense", "dense", "dense", "mixed", "mixed", "mixed", "mixed",
-          "focus", "focus", "focus", "focus", "focus", "focus"]
+          "focus", "focus", "focus", "focus", "focus", "focus",
+          "multi-block", "multi-block", "huge", "huge", "crlf", "crlf", "crlf-base"]
